@@ -23,8 +23,8 @@ NOTE = "Trusted: the tree generator and the chain reference. scope_redirection_l
 
 GRAMMAR = """
 Model: (packages+=Package | classes+=Class | refs+=Ref)*;
-Package: 'p' name=ID uid=INT ('>' link=[Named:INT])? '{' (packages+=Package | classes+=Class | refs+=Ref)* '}';
-Class: 'c' name=ID uid=INT ('>' link=[Named:INT])?;
+Package: 'p' name=ID uid=INT ('>' link=[Named:INT])? ('>>' links+=[Named:INT][','])? '{' (packages+=Package | classes+=Class | refs+=Ref)* '}';
+Class: 'c' name=ID uid=INT ('>' link=[Named:INT])? ('>>' links+=[Named:INT][','])?;
 Named: Package | Class;
 Ref: RefC | RefP | RefN;
 RefC: 'rc' t=[Class:FQN];
@@ -76,7 +76,8 @@ def render(f, ids, link, refsite, reftext, path=()):
         p = path + (i,)
         head = "%s %s %d" % (kind, name, ids[p])
         if link and link[0] == p:
-            head += " > %d" % ids[link[1]]
+            # a third element "list": the link is written as a multi-valued reference (links+=) with the target given twice
+            head += (" >> %d , %d" % (ids[link[1]], ids[link[1]])) if len(link) > 2 else (" > %d" % ids[link[1]])
         if kind == "p":
             inner = render(kids, ids, link, refsite, reftext, p)
             if refsite == p:
@@ -179,7 +180,7 @@ def world(user=False):
                 uid = int(obj_ref.obj_name)
                 r = get_children(lambda x: getattr(x, "uid", None) == uid, get_model(obj))
                 return r[0] if r else None
-            mmx.register_scope_providers({"*.t": FQN(), "*.link": by_uid_x})
+            mmx.register_scope_providers({"*.t": FQN(), "*.link": by_uid_x, "*.links": by_uid_x})
             _S["mm-extra"] = mmx
         return _S["mm-extra"]
     if user:
@@ -193,7 +194,7 @@ def world(user=False):
                 uid = int(obj_ref.obj_name)
                 r = get_children(lambda x: getattr(x, "uid", None) == uid, get_model(obj))
                 return r[0] if r else None
-            mmu.register_scope_providers({"*.t": FQN(), "*.link": by_uid_u})
+            mmu.register_scope_providers({"*.t": FQN(), "*.link": by_uid_u, "*.links": by_uid_u})
             _S["mm-user"] = mmu
         return _S["mm-user"]
     if "mm" not in _S:
@@ -208,7 +209,7 @@ def world(user=False):
             r = get_children(lambda x: getattr(x, "uid", None) == uid, get_model(obj))
             return r[0] if r else None
 
-        mm.register_scope_providers({"*.t": FQN(), "*.link": by_uid})
+        mm.register_scope_providers({"*.t": FQN(), "*.link": by_uid, "*.links": by_uid})
         _S["mm"] = mm
     return _S["mm"]
 
@@ -259,6 +260,8 @@ def work(arg):
         links = [None]
         if with_links:
             links += [(a[0], b[0]) for a in nodes for b in nodes]
+            if len(nodes) <= 3:
+                links += [(a[0], b[0], "list") for a in nodes for b in nodes]
         for link in links:
             for site in sites:
                 for parts in texts:
@@ -317,7 +320,7 @@ def run_finished(f, link, parts, target):
         uid = int(obj_ref.obj_name)
         r = get_children(lambda x: getattr(x, "uid", None) == uid, get_model(obj))
         return r[0] if r else None
-    mm.register_scope_providers({"*.t": FQNImportURI(), "*.link": by_uid})
+    mm.register_scope_providers({"*.t": FQNImportURI(), "*.link": by_uid, "*.links": by_uid})
     d = os.path.join(core.rundir(), "c10fin-%d" % os.getpid())
     os.makedirs(d, exist_ok=True)
     ids = {p: i + 1 for i, (p, k, n) in enumerate(flatten(f))}
